@@ -142,7 +142,7 @@ def _exists_loop(vc, *, qualname, reg, anchor, h, qualifies, stubs, call, clause
 
 @harness('R2', targets=[f'{REG}.SpawningRegistry.requires_finalizer', f'{REG}.ChangingRegistry.requires_finalizer',
                         f'{REG}.ChangingRegistry.prematch'],
-         props=['C06', 'C15'],
+         props=['C06', 'C15', 'C02', 'C03', 'C05', 'C09', 'C11', 'C14'],
          clauses=['spawning_requires_finalizer', 'changing_requires_finalizer', 'prematch_iff_some_handler', 'frame'],
          canaries=['canary.always_exists', 'canary.never_required'],
          trusted=['registries.match(h, c) == registries.prematch(h, c) and _matches_field_changes(h, c) (R12); '
@@ -225,7 +225,7 @@ class _GhostList:
 @harness('R7', targets=[f'{REG}.ResourceRegistry.has_handlers', f'{REG}.ChangingRegistry.get_resource_handlers',
                         f'{REG}.ResourceRegistry.get_all_selectors', f'{REG}.GenericRegistry.get_all_handlers',
                         f'{REG}.GenericRegistry.append'],
-         props=['C15', 'C02', 'C14'],
+         props=['C15', 'C02', 'C14', 'C03', 'C05', 'C06', 'C09', 'C10', 'C11', 'C17', 'C18', 'C19'],
          clauses=['has_iff_some_handler_serves', 'collects_serving_in_order', 'starts_empty', 'deduplicated_result',
                   'selectors_of_all_handlers', 'append_keeps_order', 'frame'],
          canaries=['canary.always_exists', 'canary.collects_all', 'canary.no_selectors'],
@@ -326,7 +326,7 @@ class _RawHandlers:
 
 @harness('R8', targets=[f'{REG}.IndexingRegistry.iter_handlers', f'{REG}.WatchingRegistry.iter_handlers',
                         f'{REG}.SpawningRegistry.iter_handlers', f'{REG}.ResourceRegistry.get_handlers'],
-         props=['C15', 'C09', 'C17'],
+         props=['C15', 'C09', 'C17', 'C02', 'C05', 'C06', 'C10', 'C11', 'C13', 'C14', 'C18'],
          clauses=['selection', 'frame', 'get_handlers_deduplicates'], canaries=['canary.yields_all', 'canary.never_yields'],
          trusted=['registries.match by contract (R12): a boolean function of handler and cause', '_deduplicated by contract R3'])
 def R8(vc):
@@ -595,7 +595,7 @@ def _same_kwargs(got, want):
 
 @harness('R10', targets=[f'{REG}._matches_metadata', f'{REG}._matches_labels', f'{REG}._matches_annotations',
                          f'{REG}._matches_filter_callback', f'{REG}._matches_resource', f'{REG}._matches_subresource'],
-         props=['C15', 'C18'],
+         props=['C15', 'C18', 'C02', 'C04', 'C05', 'C06', 'C09', 'C14', 'C17'],
          clauses=['item_semantics', 'all_items', 'callback_arguments', 'kwargs_built_at_most_once', 'frame',
                   'labels_stanza', 'annotations_stanza', 'when_callback', 'resource_selector', 'subresource'],
          canaries=['canary.always_matches', 'canary.never_matches'],
@@ -889,7 +889,7 @@ def _check_value_callbacks(vc, world, cause, cbs, kwargs, pre):
     vc.ensure('frame', not world.bad)
 
 
-@harness('R11', targets=[f'{REG}._matches_field_values', f'{REG}._matches_field_changes'], props=['C15', 'C18'],
+@harness('R11', targets=[f'{REG}._matches_field_values', f'{REG}._matches_field_changes'], props=['C15', 'C18', 'C04', 'C06', 'C14', 'C17'],
          clauses=['no_field_no_criterion', 'value_on_current_state', 'value_on_old_or_new_for_updates', 'value_on_body_state',
                   'change_criteria', 'not_applicable', 'callback_arguments', 'kwargs_built_at_most_once', 'frame'],
          canaries=['canary.always_matches', 'canary.never_matches'],
@@ -985,7 +985,7 @@ PARTS = ('_matches_resource', '_matches_subresource', '_matches_labels', '_match
 WHEN_PART, CHANGES_PART = '_matches_filter_callback', '_matches_field_changes'
 
 
-@harness('R12', targets=[f'{REG}.match', f'{REG}.prematch'], props=['C15', 'C18'],
+@harness('R12', targets=[f'{REG}.match', f'{REG}.prematch'], props=['C15', 'C18', 'C02', 'C03', 'C05', 'C06', 'C09', 'C10', 'C11', 'C14', 'C17'],
          clauses=['conjunction_of_all_criteria', 'prematch_ignores_change_criteria', 'when_evaluated_last', 'arguments',
                   'one_shared_kwargs', 'kwargs_built_at_most_once', 'integration'],
          canaries=['canary.always_matches', 'canary.never_matches'],
@@ -1105,7 +1105,7 @@ def _falsy(x):
 @harness('R15', targets=[f'kopf.on.{k}' for k in RESOURCE_KINDS + tuple(ACTIVITY_KINDS) + ('subhandler', 'register')] +
                         ['kopf.on._verify_operations', 'kopf.on._verify_filters', 'kopf.on._warn_conflicting_values',
                          'kopf.on._warn_incompatible_parent_with_oldnew'],
-         props=['C05', 'C15', 'C11', 'C09', 'C02', 'C06', 'C20'],
+         props=['C05', 'C15', 'C11', 'C09', 'C02', 'C06', 'C20', 'C18', 'C17', 'C10', 'C14'],
          clauses=['one_handler_in_its_registry', 'returns_the_function', 'kind_attributes', 'delete_requires_finalizer_unless_optional',
                   'spawning_requires_finalizer', 'update_handlers_need_change', 'criteria_passed_through', 'error_policy_passed_through',
                   'id_from_function_or_id_plus_field', 'index_id_is_its_name', 'selector', 'activity_kind', 'subhandler',
@@ -1420,7 +1420,7 @@ def _one_process_start():
     return ns
 
 
-@harness('R13', targets=[f'{REG}.generate_id', f'{REG}.get_callable_id'], props=['C16', 'C02'],
+@harness('R13', targets=[f'{REG}.generate_id', f'{REG}.get_callable_id'], props=['C16', 'C02', 'C09', 'C11', 'C14', 'C15', 'C17', 'C18'],
          clauses=['id_composition', 'callable_id_cases', 'rejects_unidentifiable', 'stable_across_restarts', 'no_volatile_ingredients'],
          canaries=['canary.id_is_bare', 'canary.restart_changes_objects'],
          assumes=['an explicit id= is a non-empty string (an empty handler id is not a usable key for progress records)'])
@@ -1603,7 +1603,7 @@ def spec_check(want, r, fn_says=None):
 
 
 @harness('R14', targets=[f'{REFS}.Selector.check', f'{REFS}.Selector.select', f'{REFS}.Selector.__post_init__', f'{REFS}.Selector.is_specific'],
-         props=['C15', 'C19'],
+         props=['C15', 'C19', 'C18', 'C17', 'C09', 'C13'],
          clauses=['notation', 'check', 'callable_selector', 'select_filters', 'select_prefers_core_v1', 'rejects_ambiguous'],
          canaries=['canary.matches_everything', 'canary.matches_nothing'],
          assumes=['the resource has one short name and one category (both arbitrary strings); its group, version, plural, kind, singular '
